@@ -23,7 +23,7 @@ pub static DEF: PropDef = PropDef {
     id: "C15",
     level: "exploration",
     engine: "query",
-    rule: "one run = a real Ingester whose shard (the id the ingester itself derives for the batches: tenant, metric hash, coarse time) has a split state in the DualWrite or Backfill phase, set through the real start_split / update_split_progress, on either catalog backend; in half of the runs the old shard also has 1..3 historical chunks and, in the Backfill phase, the real ShardSplitter::run_backfill copies them before / between / after the writes (a third of those back-fills is interrupted by one storage error, so reads see a partial back-fill); 4..10 accepted batches of 1..5 rows with Int64 timestamps below / at / above the split point, several series per (timestamp, metric) differing in labels or value, and genuine exact duplicates; then 4..8 queries (projections with and without the key columns, count/sum/min/max, GROUP BY) through a real QueryNode while the split is active; routing oracle: ids in chunks under new shard A == accepted rows with ts < split, under B ts >= split, each once per accepted write; read oracle: answer == the same SQL on a MemTable of the historical + accepted rows; back-fill copies hold only historical rows of their side, once; distinct = distinct (dataset, query text) hash; non-trivial = completed AND rows fell on both sides of the split point",
+    rule: "one run = a real Ingester whose shard (the id the ingester itself derives for the batches: tenant, metric hash, coarse time) has a split state in the DualWrite or Backfill phase, set through the real start_split / update_split_progress, on either catalog backend; in half of the runs the old shard also has 1..3 historical chunks and, in the Backfill phase, the real ShardSplitter::run_backfill copies them before / between / after the writes (a third of those back-fills is interrupted by one storage error, so reads see a partial back-fill); 4..10 accepted batches of 1..5 rows with Int64 timestamps below / at / above the split point, several series per (timestamp, metric) differing in labels or value, and genuine exact duplicates; then 4..8 queries (projections with and without the key columns, count/sum/min/max, GROUP BY) through a real QueryNode while the split is active (a third of the runs then run one real compaction cycle, still inside the phase, and ask again); routing oracle: ids in chunks under new shard A == accepted rows with ts < split, under B ts >= split, each once per accepted write; read oracle: answer == the same SQL on a MemTable of the historical + accepted rows; back-fill copies hold only historical rows of their side, once; distinct = distinct (dataset, query text) hash; non-trivial = completed AND rows fell on both sides of the split point",
     quick_runs: 1000,
     thorough_runs: 8000,
     run_cap_ms: 120_000,
@@ -314,6 +314,26 @@ fn scen(_spec: RunSpec) -> ScenFut {
         ];
         let nq = sim::w_range(4, 6) as usize;
         let mut hist = format!("{}:{}:{:?}:", accepted.len(), historical.len(), backfill_at);
+        // a third of the runs: a real compaction cycle while the split is still in its phase, then the same statements again
+        let compact_during_split = sim::w(3) == 2;
+        for round in 0..2 {
+        if round == 1 {
+            if !compact_during_split {
+                break;
+            }
+            let ccfg = cardinalsin::compactor::CompactorConfig { l0_merge_threshold: 2, sharding_enabled: false, gc_grace_period: std::time::Duration::from_secs(300), retention_days: 36_500, ..Default::default() }; // (rows at the epoch are not to be retired)
+            let comp = cardinalsin::compactor::Compactor::new(ccfg, store.clone(), meta.clone(), StorageConfig::default(), Arc::new(cardinalsin::sharding::ShardMonitor::new(cardinalsin::sharding::HotShardConfig::default())));
+            let before = meta.list_chunks().await.map(|c| c.len()).unwrap_or(0);
+            if let Err(e) = comp.run_compaction_cycle().await {
+                sim::log(format!("compaction cycle failed: {e}"));
+            }
+            let after = meta.list_chunks().await.map(|c| c.len()).unwrap_or(0);
+            if after != before {
+                sim::probe("compaction-cycle-merged-chunks-during-the-split");
+            }
+            // the query node's catalog view may be up to 60 s stale by design
+            tokio::time::sleep(std::time::Duration::from_secs(61)).await;
+        }
         for (name, sql) in forms.iter().take(nq) {
             hist.push_str(sql);
             let want = match reference(sql, &all).await {
@@ -334,11 +354,13 @@ fn scen(_spec: RunSpec) -> ScenFut {
                             _ if gn < wn => "collapsed-distinct-series",
                             _ => "copies-not-suppressed",
                         };
-                        sim::violation(format!("C15/split-time-read-differs/{cause}"), format!("[{:?}, {name}] {sql} :: {}", phase, describe_diff(&want, &got)));
+                        let cause = if round == 1 { "after-compaction-during-the-split" } else { cause };
+                        sim::violation(format!("C15/split-time-read-differs/{cause}"), format!("[{:?}, {name}{}] {sql} :: {}", phase, if round == 1 { ", after a compaction cycle" } else { "" }, describe_diff(&want, &got)));
                     }
                 }
                 Err(e) => sim::violation("C15/split-time-read-error", format!("{sql} :: {e}")),
             }
+        }
         }
         sim::set_completed();
         sim::set_extra("strict_nontrivial", serde_json::json!(below > 0 && above > 0));
